@@ -355,7 +355,7 @@ def c10(tier, seed, only=None):
     mons = [SM + "CancelStops"]
     jobs = _ctrl_jobs(tier, mons, dict(pause=1, resume=1, cancel=1, render=True, horizon=60),
                       families=("F2", "F4", "F5", "F6"))
-    jobs += _interim_jobs(tier, mons, dict(cancel=1, horizon=60))
+    jobs += _interim_jobs(tier, mons, dict(cancel=1, pause=1, horizon=60))
     # the last in-flight action answers a cancel with pending (held) or fails under a retry policy
     for s in gen.f6_publish(tier) + gen.f5_all(tier):
         if not gen.is_big(s) and (tier != "quick" or s.name in (
@@ -425,6 +425,10 @@ def c11(tier, seed, only=None):
     jobs = []
     for s in gen.fx_all(tier):
         jobs.append(job(s, dict(horizon=40, render=True), mons))
+        if s.meta.get("lang") == "yaql" and s.meta.get("position") in ("action", "task_input", "delay", "when",
+                                                                         "publish", "cleanup_task_input"):
+            # the same position is evaluated again after a rerun of the failed workflow
+            jobs.append(job(s, dict(horizon=40, rerun=1, dev=3), mons))
         if tier != "quick" or s.meta.get("lang") == "yaql":
             jobs.append(job(s, dict(horizon=40, render=True, pause=1, resume=1, cancel=1, dev=3), mons))
     jobs = _filter(jobs, only)
@@ -450,6 +454,12 @@ def c12(tier, seed, only=None):
         jobs.append(job(s, cfg, mons))
     for s in gen.f4_result(tier):
         jobs.append(job(s, dict(horizon=60), [FT + "ItemsResult"]))
+    for s in gen.f5_all(tier):
+        if "items" in s.name:
+            jobs.append(job(s, dict(horizon=60), mons))
+    for s in gen.f4_all(tier):
+        if not gen.is_big(s) and s.inputs and len(s.inputs.get("xs", [])) >= 2:
+            jobs.append(job(s, dict(horizon=60, rerun=1, rerun_mode="failed", dev=3 if tier == "quick" else 4), mons))
     jobs += [j for j in _interim_jobs(tier, mons, dict(pause=1, resume=1, cancel=1, horizon=60)) if "/items" in j["scn"]["name"]]
     for s in gen.f3_all(names=[n for n in gen.f3_fixture_names() if "items" in n]):
         jobs.append(job(s, dict(horizon=80, dev=2 if tier == "quick" else 3, pause=1, resume=1, cancel=1), mons))
@@ -512,7 +522,11 @@ def c17(tier, seed, only=None):
             cfg2["rerun"] = 2
             cfg2["dev"] = 4 if tier == "quick" else 5
             jobs.append(job(s, cfg2, mons))
-        if s.name in ("F2/seq2", "F2/seq3", "F2/decide", "F2/handler-remediate-then-next"):
+        if s.name in ("F2/fanin-m2-jall-SS-l1", "F2/fanin-m2-jall-SS-l1-tail", "F2/fanin-roots-all") and tier == "quick":
+            # two explicit requests on parallel branches that meet at a join
+            jobs.append(job(s, dict(rerun=1, rerun_mode="failed-pairs", rerun_outcomes=ok_only, horizon=70,
+                                    rerun_with_inflight=False), mons))
+        if s.name in ("F2/seq2", "F2/seq3", "F2/decide", "F2/handler-remediate-then-next", "F4/items-after-prep"):
             # sequences: explicit reruns of any execution (also succeeded ones), twice
             jobs.append(job(s, dict(rerun=2, rerun_mode="tasks", horizon=70), mons))
         if s.family == "F4" and not gen.is_big(s):
@@ -682,6 +696,9 @@ def c19(tier, seed, only=None):
         jobs.append(job(s, cfg, mons))
     for s in gen.f3_all():
         jobs.append(job(s, dict(horizon=120, dev=1 if tier == "quick" else 2), mons))
+    for s in gen.fx_all(tier):
+        if s.meta.get("position") == "cleanup_task_input":
+            jobs.append(job(s, dict(horizon=40), mons))
     jobs = _filter(jobs, only)
     results = runner.run_jobs(jobs, seed=seed)
     # (a) separate processes with different hash seeds
